@@ -64,6 +64,14 @@ def _(): return word_ind(lambda v: ForAll([u_], T.take(T.wlen(u_), T.app(u_, v))
 def _(): return word_ind(lambda v: ForAll([u_], T.drop(T.wlen(u_), T.app(u_, v)) == v))
 
 
+@proof('wordx', 'prefix-is-take')
+def _(): return word_ind(lambda w: ForAll([u_], Implies(T.isprefix(u_, w), u_ == T.take(T.wlen(u_), w))))
+@proof('wordx', 'take-zero')
+def _(): return word_ind(lambda w: T.take(0, w) == Word.nil)
+@proof('wordx', 'drop-all')
+def _(): return word_ind(lambda w: ForAll([k_], Implies(k_ >= T.wlen(w), T.drop(k_, w) == Word.nil)))
+
+
 @proof('dfa', 'dhat-closed')
 def _():
     D = SV(REC('DFA'), T._D); q = Const('q_', Atom)
